@@ -5,11 +5,12 @@ from .util import call
 
 ID = 'C02'
 LEAN_MODULE = 'KernProofs.C02'
-EXTRA_MODULES = ['KernProofs.C02Tree']
+EXTRA_MODULES = ['KernProofs.C02Tree', 'KernProofs.C02Tok']
 THEOREMS = ['KM.C02.C02_one_stage_per_line', 'KM.C02.C02_measure_index_ok', 'KM.C02.splitLinesAux_line', 'KM.C02.line_boundary_free', 'KM.C02.splitRow_renderLine', 'KM.C02.C02_reader_literal', 'KM.C02.C02_surplus_data', 'KM.C02.C02_surplus_operator', 'KM.C02.C02_surplus_comment', 'KM.C02.cellsLoop_error', 'KM.C02.C02_surplus_row_rejected', 'KM.C02.C02_row_error_propagates', 'KM.C02.C02_data_cell_node', 'KM.C02.C02_split_and_end', 'KM.rowStep_shape', 'KM.runRows_startsOk', 'KM.runRows_stageCount', 'KM.cellStep_frame', 'KM.cellStep_length', 'KM.addNode_length',
             'KM.C02T.C02_tree', 'KM.C02T.C02_tree_text', 'KM.C02T.C02_import_succeeds', 'KM.C02T.C02_tree_exists', 'KM.C02T.cellStep_body', 'KM.C02T.cellStep_header',
             'KM.C02T.emitM_eq', 'KM.C02T.cellStep_track', 'KM.C02T.cellStep_ok', 'KM.C02T.cellsLoop_track', 'KM.C02T.cellsLoop_ok', 'KM.C02T.rowStep_track',
-            'KM.C02T.rowStep_ok', 'KM.C02T.runRows_track', 'KM.C02T.runRows_ok', 'KM.C02T.step_cells']
+            'KM.C02T.rowStep_ok', 'KM.C02T.runRows_track', 'KM.C02T.runRows_ok', 'KM.C02T.step_cells',
+            'KM.C02K.cellStep_tok', 'KM.C02K.modelHdrEnc_eq', 'KM.C02K.cellsLoop_tok', 'KM.C02K.lookup_hdr_row', 'KM.C02K.rowStep_tok', 'KM.C02K.runRows_tok', 'KM.C02K.C02_tokens']
 FINGERPRINTS = ['importer.Importer', 'document.Node', 'document.MultistageTree', 'document.SignatureNodes', 'tokens.HeaderToken.export']
 RULE = ('(a) EVERY spine-operator layout with <= 2 initial spines, <= 4 live paths and <= 2 (quick) / 3 (thorough) operator rows, each column of each '
         'operator row being one of * *^ *v *-, filled with distinguishable data cells; (b) generated documents of the full grammar (quick 40 / '
